@@ -898,7 +898,8 @@ class StubsStringGenerator:
 
         # Inner classes
         for inner_class in superclass_class.classes:
-            if not is_internal(inner_class.name):
+            # Like the methods, an inner class is hidden by a member of that name which the subclass already has
+            if not is_internal(inner_class.name) and inner_class.name not in already_defined_names:
                 class_string = self._create_class_string(
                     class_=inner_class,
                     class_indentation=inner_indentations,
